@@ -127,8 +127,8 @@ def c17c(prog, R):
     r.floor(4)
 
 
-def c17d(prog, R):
-    r = R.rule("C17.d", "replacement values are separated like ordinary writes and their blob file is published", "B,D")
+def c17d(prog, R, rid="C17.d"):
+    r = R.rule(rid, "replacement values are separated like ordinary writes and their blob file is published", "B,D")
     f = prog.fn(HANDLE_WRITE)
     h = prog.hir.get(f.path) if f else None
     if h is None:
